@@ -321,6 +321,10 @@ def gen_leaf(rng, dbd, seen, pool, exact_stream, like_stream):
         path = rng.choice(pool)
         if rng.random() < 0.06:
             path = path[:-1] + (rng.choice(NAME_POOL),)  # a path no fit has
+        if rng.random() < 0.07:
+            # the bare path as a predicate (`agg.model.g.centre`): the attribute exists
+            k = rng.randint(1, len(path))
+            return {"k": "path", "names": list(path[:k]), "op": "eq", "c": {"k": "any"}}
         op, c = gen_const_for(rng, path, seen, exact_stream)
         leaf = {"k": "path", "names": list(path), "op": op, "c": c}
         if op == "eq" and rng.random() < 0.15:
@@ -505,6 +509,8 @@ def _build(agg, p):
         q = agg.model
         for n in p["names"]:
             q = getattr(q, n)
+        if p["c"]["k"] == "any":
+            return q
         c = const_py(p["c"])
         op = p["op"]
         if op == "eq":
@@ -544,6 +550,7 @@ def _build(agg, p):
 def run_real(real, pred, orders, slices, chain_query):
     """-> dict(full=[ids], result=[ids]) or {"err": ..}"""
     agg = real.agg
+    real.last_predicate = None
     try:
         a = agg
         # what a derived aggregator answers does not depend on whether its parents were already read
@@ -558,6 +565,7 @@ def run_real(real, pred, orders, slices, chain_query):
                 a = a(build(agg, pred))
             else:
                 a = a.query(build(agg, pred))
+        real.last_predicate = a._predicate  # the predicate object the aggregator holds (read by check_sql)
         if touch:
             len(a.fits)
         for o in orders:
@@ -627,6 +635,8 @@ def direct(p, rec, inst):
         if not ok:
             return False
         c = p["c"]
+        if c["k"] == "any":
+            return True
         if c["k"] == "num":
             return isinstance(v, (int, float)) and not isinstance(v, bool) and bool(OPS[p["op"]](v, c["v"]))
         if c["k"] == "str":
@@ -743,7 +753,26 @@ def negated_named_in_junction(pred):
     return False
 
 
+def is_bare(p):
+    return p.get("k") == "path" and p["c"]["k"] == "any"
+
+
+def bare_path_in_or(pred):
+    """an `|` with a bare path (`agg.model.g`, no comparison) among its alternatives"""
+    def alternatives(q):
+        if q.get("k") == "or":
+            return alternatives(q["x"]) + alternatives(q["y"])
+        return [q]
+
+    for q in walk_pred(pred or {}):
+        if q.get("k") == "or" and any(is_bare(a) for a in alternatives(q)):
+            return True
+    return False
+
+
 def classify(pred, dbd, real, want_full):
+    if bare_path_in_or(pred) and ("err" in real or sorted(real["full"]) != sorted(want_full)):
+        return "C10-bare-path-in-or", "a bare path (the attribute exists) as an alternative of | raises or loses the alternative"
     if has_misparsed_literal(pred):
         return "C10-sqlite-float-literal", "a float literal in the generated SQL is parsed by SQLite one ulp off, so the comparison misses"
     if like_sensitive(pred, dbd):
@@ -902,13 +931,17 @@ def probe_flags(ctx):
         keeps = sorted(r.get("full", [])) == ["w1", "w4"]
         r = run_real(real, None, [{"attr": "id", "reverse": False}], [[1, 3]], False)
         window = r.get("result") == ["w1", "w2"]
+        pred = {"k": "or", "x": {"k": "path", "names": ["g"], "op": "eq", "c": {"k": "any"}},
+                "y": {"k": "path", "names": ["g", "centre"], "op": "eq", "c": {"k": "num", "v": 1}}}
+        r = run_real(real, pred, [], [], False)
+        bare = len(r.get("full", [])) == 5
     finally:
         real.close()
-    return {"junctionKeepsNot": bool(keeps), "sliceWindow": bool(window)}
+    return {"junctionKeepsNot": bool(keeps), "sliceWindow": bool(window), "bareNotMerged": bool(bare)}
 
 
 def one_case(ctx, dbd, real, pred, orders, slices, chain_query=False, label="gen", cfg=None):
-    cfg = cfg or ctx.notes.get("flags_observed") or {"junctionKeepsNot": True, "sliceWindow": True}
+    cfg = cfg or ctx.notes.get("flags_observed") or {"junctionKeepsNot": True, "sliceWindow": True, "bareNotMerged": True}
     recs = dbd["fits"]
     case = {"db": dbd, "pred": pred, "orders": orders, "slices": slices, "chain_query": chain_query, "label": label}
 
@@ -952,7 +985,7 @@ def one_case(ctx, dbd, real, pred, orders, slices, chain_query=False, label="gen
                  {"problems": problems[:3], "predicate": pred_text(fail_case["pred"])})
 
     # ---- correspondence: model vs implementation
-    known = classified is not None and classified[0] in ("C10-sqlite-float-literal", "C10-like-semantics")
+    known = classified is not None and classified[0] in ("C10-sqlite-float-literal", "C10-like-semantics", "C10-bare-path-in-or")
     if ans.get("fuel_ok") is False:
         ctx.disagree("C10.model-merge-depth", case, None, ans.get("render"))
     if ans.get("match") != ans.get("direct") and ans.get("wf") and cfg.get("junctionKeepsNot"):
@@ -994,17 +1027,19 @@ def check_sql(ctx, case, real, pred, ans, cfg):
     junction's fit_query (python set order) sorted on both sides"""
     if ans.get("fuel_ok_set") is False:
         ctx.disagree("C10.model-set-merge-depth", case, None, ans.get("render_set"))
-    if ans.get("match_set") != ans.get("direct") and ans.get("wf") and cfg.get("junctionKeepsNot"):
+    if ans.get("match_set") != ans.get("direct") and ans.get("wf") and cfg.get("junctionKeepsNot") and cfg.get("bareNotMerged", True):
         ctx.disagree("C10.model-set-compile-vs-direct", case, ans.get("match_set"), ans.get("direct"))
     if ans.get("dedup_agree") is False:
         # two different conditions print the same SQL: the code keeps one of them, the theorems keep both
         ctx.disagree("C10.dedup-by-text-vs-structure", case, None, ans.get("render_set"))
+    q = getattr(real, "last_predicate", None)
+    if q is None:
+        return  # building the query raised: judged (and classified) from the run itself
     try:
-        q = build(real.agg, pred) if pred is not None else real.agg._predicate
         texts = {"sql": c10_sql.canon_sql(q.fit_query)}
         raw_str = str(q)
     except Exception:
-        return  # building the query raises: judged (and classified) from the run itself
+        return
     try:
         texts["sql_str"] = c10_sql.canon_sql(raw_str)
     except c10_sql.Ambiguous:
@@ -1058,6 +1093,8 @@ def hits(ctx, render, feats, orders, slices, want_ids, recs):
     ctx.hit(f"slices:{len(slices)}")
     if any(len(sl) == 3 for sl in slices):
         ctx.hit("slice:stepped")
+    if "(&[])" in render:
+        ctx.hit("leaf-bare-path")
     if any((sl[0] is not None and sl[0] < 0) or (sl[1] is not None and sl[1] < 0) for sl in slices):
         ctx.hit("slice-negative")
     if not want_ids:
@@ -1096,6 +1133,8 @@ def pred_text(p):
     k = p["k"]
     if k == "path":
         c = p["c"]
+        if c["k"] == "any":
+            return f"has {'.'.join(p['names'])}"
         cs = {"num": lambda: repr(c["v"]), "str": lambda: repr(c["v"]), "none": lambda: "None", "cls": lambda: c["name"]}[c["k"]]()
         sym = {"eq": "==", "lt": "<", "le": "<=", "gt": ">", "ge": ">="}[p["op"]]
         return f"{'.'.join(p['names'])} {sym} {cs}"
